@@ -16,8 +16,8 @@ GROUPS = [
     G('signed_area', 'signed_area', 'h_signed_area', n=3, r=2),
     G('area', 'area', 'h_area', n=3, r=2, replace=['Repetition__get_count']),
     G('perimeter', 'perimeter', 'h_perimeter', n=3, r=1, tier='thorough', timeout=2400),
-    G('contain_r2', 'contain', 'h_contain', n=3, r=2, tier='thorough', timeout=3600),
-    G('area_n4', 'area', 'h_area', n=4, r=2, tier='thorough', timeout=3600, replace=['Repetition__get_count']),
+    G('contain_r2', 'contain', 'h_contain', n=3, r=2, tier='thorough', timeout=9000),
+    G('area_n4', 'area', 'h_area', n=4, r=2, tier='thorough', timeout=9000, replace=['Repetition__get_count']),
 ] + [
     dict(name=nm, tu='src/polygon.cpp', spec_headers=['spec/ghost.h', 'spec/geom_spec.h', 'spec/query_spec.h'], models=[],
          harness='harness/c14_group.c', roots=roots, entry=entry, enforce=None, kind='bounded',
